@@ -1,14 +1,17 @@
 package c16
 
 import (
+	"bytes"
 	"fmt"
 	"os"
+	"path/filepath"
 	"strconv"
 	"strings"
 	"testing"
 
 	"github.com/Eyevinn/mp4ff/avc"
 	"github.com/Eyevinn/mp4ff/hevc"
+	"github.com/Eyevinn/mp4ff/mp4"
 
 	"verifharness/ref/bitw"
 	"verifharness/runner"
@@ -204,4 +207,86 @@ func TestStructBase(t *testing.T) {
 		_, err := avc.ParseSliceHeader(u, sm, pm)
 		fmt.Printf("  %-60s err=%v\n", names[i], err)
 	}
+}
+
+// TestMP4Frames checks the local box writer and the in-place patching of the
+// repo's files against the library on benign content (development aid): every
+// frame with valid samples and a valid record must decode, and the samples the
+// library finds must be the ones that were put in. C16_MP4_OUT=<dir> keeps the
+// files of the systematic part for a look with the tools.
+func TestMP4Frames(t *testing.T) {
+	env := &runner.Env{Tier: "quick", Seed: 1, RepoDir: "/repo"}
+	s, err := loadSeeds(env)
+	if err != nil {
+		t.Fatal(err)
+	}
+	seeds = s
+	defaultMaps = buildDefaultMaps(s)
+	loadRealMP4s(env)
+	for codec, l := range realMP4s {
+		for _, rm := range l {
+			fmt.Printf("real %s: %s entry %s init=%v track %d first samples %v %v\n", codec, rm.name, rm.entry, rm.fragInit, rm.trackID, rm.sampOff, rm.sampSize)
+		}
+	}
+	out := os.Getenv("C16_MP4_OUT")
+	seen := map[string]int{}
+	for sub := 0; sub < mp4SysCount()+300; sub++ {
+		r := runner.NewRand(1, runner.HashStr("C16"), uint64(sub)+1)
+		mc := genMP4(r, sub)
+		if mc == nil {
+			t.Fatal("no material")
+		}
+		file, ok := mc.spec.build()
+		if !ok {
+			t.Fatalf("not built: %s", mc.desc)
+		}
+		seen[mc.usedFrame+" "+mc.cfgClass+" "+mc.smpClass]++
+		if out != "" && sub < mp4SysCount() {
+			_ = os.WriteFile(filepath.Join(out, fmt.Sprintf("%04d-%s-%s-%s-%s.mp4", sub, mc.spec.codec(), mc.spec.Frame, mc.cfgClass, mc.smpClass)), file, 0o644)
+		}
+		if mc.cfgClass != "valid" || mc.smpClass != "valid" {
+			continue
+		}
+		f, err := mp4.DecodeFile(bytes.NewReader(file))
+		if err != nil {
+			t.Errorf("%s: DecodeFile: %v", mc.desc, err)
+			continue
+		}
+		switch {
+		case f.IsFragmented():
+			if len(f.Segments) == 0 || len(f.Segments[0].Fragments) == 0 {
+				t.Errorf("%s: no fragment", mc.desc)
+				continue
+			}
+			var trex *mp4.TrexBox
+			if f.Init != nil {
+				trex = f.Init.Moov.Mvex.Trex
+			}
+			fs, err := f.Segments[0].Fragments[0].GetFullSamples(trex)
+			if err != nil || len(fs) != len(mc.spec.Samples) {
+				t.Errorf("%s: GetFullSamples: %v, %d samples", mc.desc, err, len(fs))
+				continue
+			}
+			for i := range fs {
+				if !bytes.Equal(fs[i].Data, mc.spec.Samples[i]) {
+					t.Errorf("%s: sample %d differs", mc.desc, i)
+				}
+			}
+		default:
+			stbl := f.Moov.Trak.Mdia.Minf.Stbl
+			off := int(stbl.Stco.ChunkOffset[0])
+			for i, smp := range mc.spec.Samples {
+				n := int(stbl.Stsz.GetSampleSize(i + 1))
+				got := file[off : off+n]
+				if mc.spec.Frame == "real-prog" {
+					smp = fitSample(smp, n, mc.spec.codec())
+				}
+				if !bytes.Equal(got, smp) {
+					t.Errorf("%s: sample %d differs (%d bytes at %d)", mc.desc, i, n, off)
+				}
+				off += n
+			}
+		}
+	}
+	fmt.Println(len(seen), "distinct (frame, config class, sample class) of", mp4SysCount()+300, "cases")
 }
